@@ -60,6 +60,12 @@ func extractC20(repo string, o *Out) {
 			bits, _ = constant.Uint64Val(constant.ToInt(v))
 		}
 	}
+	tr := newTr(p, o, 64)
+	tr.Func("", "MakeNodeID", "MakeNodeID")
+	tr.Func("NodeID", "IsTypeBackend", "IsTypeBackend")
+	tr.Func("NodeID", "Service", "Service")
+	tr.Func("NodeID", "Instance", "Instance")
+	defer tr.Emit("Tr")
 	o.nat("parseBase", base, "base argument of strconv.ParseUint in MustParseNodeID")
 	o.nat("parseBits", bits, "bitSize argument of strconv.ParseUint in MustParseNodeID")
 }
